@@ -90,9 +90,13 @@ def _run_one(desc):
     t0 = time.time()
     try:
         r = _MOD.run_state(desc)
-    except Exception as e:  # a harness bug must not masquerade as a pass
-        import traceback
-        raise RuntimeError("run_state failed on %r:\n%s" % (desc, traceback.format_exc())) from e
+    except Exception as e:  # neither a harness bug nor an unguarded library exception may masquerade as a pass or crash the run:
+        import traceback     # it is reported as a violation of this state (never happens on the unchanged tree)
+        tb = traceback.format_exc().strip().splitlines()
+        where = [l.strip() for l in tb if bootstrap.REPO in l][-1:] or [l.strip() for l in tb if "File" in l][-1:] or ["?"]
+        r = {"viol": [{"kind": "uncaught_exception:" + type(e).__name__, "entry": "run_state",
+                       "sig": "run_state:uncaught_exception:" + type(e).__name__,
+                       "detail": {"exc": repr(e)[:300], "raised_in": where[0][:300], "traceback_tail": tb[-6:]}}], "n_eval": 1}
     r["_t"] = time.time() - t0
     return r
 
@@ -139,7 +143,15 @@ def run_check(prop, tier=None, seed=None, only=None):
     bootstrap.init(mode)
     import warnings
     warnings.filterwarnings("ignore")
-    mod.warmup()
+    try:
+        mod.warmup()
+    except BaseException as e:  # noqa  (the warm-up makes ordinary library calls: if one raises, that is a finding, not a harness crash)
+        import traceback
+        tb = traceback.format_exc().strip().splitlines()
+        where = [l.strip() for l in tb if bootstrap.REPO in l][-1:] or ["?"]
+        ctx.viol.append(({"phase": "warmup"}, {"kind": "exception_in_ordinary_call:" + type(e).__name__, "entry": "warmup",
+                                               "sig": "warmup:exception:" + type(e).__name__, "global": True,
+                                               "detail": {"exc": repr(e)[:400], "raised_in": where[0][:300]}}))
     states = mod.enumerate_states(tier, seed) if only is None else only
     if isinstance(states, tuple):
         states, meta = states
@@ -292,7 +304,10 @@ def replay(path):
     bootstrap.init(getattr(mod, "MODE", "jit"))
     import warnings
     warnings.filterwarnings("ignore")
-    mod.warmup()
+    try:
+        mod.warmup()
+    except BaseException as e:  # noqa
+        print("warm-up call raised %r" % (e,))
     r = mod.run_state(rec["desc"])
     print(dumps({"desc": rec["desc"], "violations_now": r.get("viol", [])}, indent=1))
     sigs = [v.get("sig") for v in r.get("viol", [])]
